@@ -92,6 +92,9 @@ class Interp:
         self.raised_repo: List[Tuple[str, ast.AST]] = []
         self.json_err = prog.cls("json_serializer.JSONSerializationError").qual
         self.alias: Dict[str, ast.expr] = {}  # boolean locals holding a guard expression
+        self.tuples: Dict[str, List[Optional[FrozenSet[str]]]] = {}  # element kinds of tuples returned by inlined helpers
+        self.inline_returns: List[List] = []  # stack: what the helper being inlined returns
+        self.inline_depth = 0
 
     # ---- helpers ------------------------------------------------------------------------
     def resolve_type_tuple(self, e: ast.expr) -> Optional[FrozenSet[str]]:
@@ -131,7 +134,8 @@ class Interp:
         for s in h.body:
             if isinstance(s, ast.Raise) and s.exc is not None:
                 e = s.exc.func if isinstance(s.exc, ast.Call) else s.exc
-                q = self.mod.resolve(e)
+                # the handler belongs to the function being analysed, also while a helper of another module is being inlined
+                q = self.f.module.resolve(e)
                 return q in self.prog.classes and self.prog.is_subclass(q, self.json_err)
         return False
 
@@ -242,6 +246,8 @@ class Interp:
                             # a module that is found but fails while importing (missing name in a dependency,
                             # circular import, platform guard) "cannot be imported" just as much
                             "ImportError": k & {"str_ok"},
+                            # the parent packages of a dotted name are imported recursively: a name with hundreds of segments exhausts the stack
+                            "RecursionError": k & {"str_ok"},
                             "ValueError": k & {"str_empty"},
                             "TypeError": k & {"str_dot"},
                             "AttributeError": k - STR,
@@ -331,6 +337,30 @@ class Interp:
                                 self.op(f"str.join({label})", c, k, {"TypeError": nonstr})
                 return None
             if q in self.prog.functions:
+                g = self.prog.functions[q]
+                if any(k is not None for k in argk) and self.inline_depth < 2 and g.cls is None:
+                    # a helper of the repository that is handed a tracked value (the tag, a part of it) is interpreted with the same
+                    # transfer functions: what it raises goes through the handlers around the call, what it returns keeps its kinds,
+                    # and the guards it applies - or fails to apply - refine them
+                    sub = {p: k for p, k in zip(g.params, argk)}
+                    self.inline_returns.append([])
+                    self.inline_depth += 1
+                    saved_mod, saved_alias = self.mod, self.alias
+                    self.mod, self.alias = g.module, {}
+                    try:
+                        self.block(g.node.body, sub)
+                    finally:
+                        self.mod, self.alias = saved_mod, saved_alias
+                        self.inline_depth -= 1
+                    rets = self.inline_returns.pop()
+                    tuples = [r for r in rets if isinstance(r, list)]
+                    plain = [r for r in rets if not isinstance(r, list) and r is not None]
+                    if tuples and len({len(t) for t in tuples}) == 1:
+                        key = f"tuple#{len(self.tuples)}"
+                        self.tuples[key] = [frozenset().union(*[t[i] for t in tuples if t[i] is not None]) if any(t[i] is not None for t in tuples) else None for i in range(len(tuples[0]))]
+                        return frozenset({key})
+                    if plain:
+                        return frozenset().union(*plain)
                 return None
         return None
 
@@ -420,6 +450,11 @@ class Interp:
                         for tt, kk in zip(t.elts, parts):
                             if isinstance(tt, ast.Name):
                                 env[tt.id] = kk
+                    elif v is not None and any(x.startswith("tuple#") for x in v):
+                        kinds = self.tuples[next(x for x in v if x.startswith("tuple#"))]
+                        for tt, kk in zip(t.elts, kinds):
+                            if isinstance(tt, ast.Name):
+                                env[tt.id] = kk
                     elif v is not None and "triple" in v:
                         for tt in t.elts:
                             if isinstance(tt, ast.Name):
@@ -435,7 +470,12 @@ class Interp:
             return env
         if isinstance(s, ast.Return):
             if s.value is not None:
-                self.ev(s.value, env)
+                if self.inline_returns and isinstance(s.value, ast.Tuple):
+                    self.inline_returns[-1].append([self.ev(x, env) for x in s.value.elts])
+                else:
+                    v = self.ev(s.value, env)
+                    if self.inline_returns:
+                        self.inline_returns[-1].append(v)
             return None
         if isinstance(s, ast.Raise):
             if s.exc is not None:
@@ -443,6 +483,10 @@ class Interp:
                 e = s.exc.func if isinstance(s.exc, ast.Call) else s.exc
                 q = self.mod.resolve(e)
                 self.raised_repo.append((q, s))
+                nm = (dotted(e) or "").split(".")[-1]
+                if self.inline_depth and (nm in BUILTIN_EXC_PARENTS or nm in ("Exception", "BaseException")):
+                    # a builtin exception raised by an inlined helper travels through the handlers around the call
+                    self.raise_(nm, f"raised by {self.mod.name.split('.')[-1]} helper", s, ["any"])
             return None
         if isinstance(s, ast.If):
             self.ev(s.test, env)
